@@ -59,6 +59,7 @@ var sleeps = []time.Duration{time.Millisecond, 3 * time.Millisecond, 5 * time.Mi
 
 func body(s *simrt.Sim, tier string) {
 	flood := s.Choose(4, "flood") == 0
+	closeRace := s.Choose(5, "closeRace") == 0 // Close at an arbitrary instant, racing Batch, Subscribe and deliveries
 	nsubs := 1 + s.Choose(3, "nsubs")
 	var subs []*sub
 	anyStall := false
@@ -116,8 +117,8 @@ func body(s *simrt.Sim, tier string) {
 	}
 
 	b := batcher.New[string, int](interval)
-	var resume atomic.Bool
-	var closeReturn atomic.Uint64
+	var resume, stopReaders atomic.Bool
+	var closeReturn, closeInvoke atomic.Uint64
 
 	var subNames, workNames []string
 	for _, sb := range subs {
@@ -140,7 +141,28 @@ func body(s *simrt.Sim, tier string) {
 				var v int
 				var ok bool
 				late := false
-				s.Block("recv", func() { v, ok = <-sb.ch; late = ok && closeReturn.Load() != 0 })
+				if closeRace {
+					// a Subscribe that loses against Close is silently dropped and its channel never closed: poll
+					tm := time.NewTimer(300 * time.Millisecond)
+					timedOut := false
+					s.Block("recv", func() {
+						select {
+						case v, ok = <-sb.ch:
+							late = ok && closeReturn.Load() != 0
+						case <-tm.C:
+							timedOut = true
+						}
+					})
+					tm.Stop()
+					if timedOut {
+						if stopReaders.Load() {
+							return
+						}
+						continue
+					}
+				} else {
+					s.Block("recv", func() { v, ok = <-sb.ch; late = ok && closeReturn.Load() != 0 })
+				}
 				if !ok {
 					sb.closedSeen = true
 					sb.closedStamp = s.Stamp()
@@ -189,6 +211,22 @@ func body(s *simrt.Sim, tier string) {
 			}
 		})
 	}
+	doClose := func() {
+		closeInvoke.Store(s.Stamp())
+		s.Logf("close")
+		b.Close()
+		s.Yield("close.ret")
+		closeReturn.Store(s.Stamp())
+	}
+	if closeRace {
+		workNames = append(workNames, "closer")
+		at := sleeps[s.Choose(len(sleeps), "closeAt")]
+		s.Go("closer", func() {
+			s.Sleep(at)
+			s.Fault("close.racing")
+			doClose()
+		})
+	}
 	// 1. producers and cancellers finish (a stalled live subscriber may legitimately hold up Batch: backpressure),
 	//    so stalled subscribers resume first if needed.
 	if !s.Join(200*time.Millisecond, workNames...) {
@@ -234,8 +272,8 @@ func body(s *simrt.Sim, tier string) {
 				}
 			}
 		}
-		if sb.willCancel || sb.subReturn == 0 {
-			continue
+		if sb.willCancel || sb.subReturn == 0 || closeRace {
+			continue // with Close racing, pending values are legitimately dropped
 		}
 		// must-deliver
 		for _, c := range calls {
@@ -286,19 +324,22 @@ func body(s *simrt.Sim, tier string) {
 		return
 	}
 	// 3. Close
-	s.Go("closer", func() {
-		s.Logf("close")
-		b.Close()
-		s.Yield("close.ret")
-		closeReturn.Store(s.Stamp())
-	})
+	if !closeRace {
+		s.Go("closer", doClose)
+	}
 	if !s.Join(time.Hour, "closer") {
 		s.Fail("close-wedged", "Close did not return although no subscriber is stalled any more\n"+s.Dump())
 		return
 	}
+	stopReaders.Store(true)
 	if !s.Join(time.Hour, subNames...) {
 		s.Fail("channel-not-closed", "a subscriber channel was not closed after Close returned\n"+s.Dump())
 		return
+	}
+	for _, sb := range subs {
+		if sb.subReturn != 0 && sb.subReturn < closeInvoke.Load() && !sb.closedSeen {
+			s.Fail("channel-not-closed", fmt.Sprintf("subscriber %d was accepted before Close was called but its channel was not closed", sb.id))
+		}
 	}
 	s.Sleep(50 * time.Millisecond)
 	if l := s.Live(""); len(l) > 0 {
